@@ -24,11 +24,16 @@
      eko                   = enum_key_is_object, read from ak/ppobj.py on every run
      jv / pp_lines / pp_obj   (Layout.v) a json-like value and the chunk program the pretty-printer's layout
                            code gives for it: one line below 200 visible characters, long lists of simple
-                           values wrapped at 150, measured on visible text only *)
+                           values wrapped at 150, measured on visible text only
+     titem / title_lines / table_obj   (Titles.v) the title block of a table: as many rows as the tallest title
+                           among the VISIBLE columns, "" below a shorter title; table_obj = a table program whose
+                           title block is the model's
+     tstate / tsop / ts_run   (Titles.v) tables sharing one record structure (fmt_obj=, set_fmt, remove_columns):
+                           renderings, new column sets, removed columns *)
 From Coq Require Import ZArith List Bool.
 From AK Require Import Common.Sx Common.Err C10.Sgr C10.SgrLemmas C10.Base gen.C10_Consts C10.Model
   C10.Lemmas C10.LemmasInv C10.LemmasRun C10.LemmasPure C10.LemmasTop C10.LemmasSub C10.LemmasWit
-  C10.Layout C10.LemmasLayout C10.LemmasHandle.
+  C10.Layout C10.LemmasLayout C10.LemmasHandle C10.Titles C10.LemmasTitles.
 Import ListNotations.
 Open Scope Z_scope.
 
@@ -524,3 +529,61 @@ Proof.
   eexists. eexists. split; [vm_compute; reflexivity|reflexivity].
 Qed.
 Print Assumptions interleave_example.
+
+(* ---- the title block of a table; the record structure the tables of a family share ---- *)
+(* the block has exactly as many rows as the tallest title among the columns the table SHOWS
+   (columns of the record structure that are not shown are not an argument of title_lines) *)
+Theorem title_block_height : forall cols,
+  (List.length (title_lines cols) = title_height cols)%nat /\
+  (forall c, In c cols -> (List.length (snd c) <= title_height cols)%nat) /\
+  (cols <> [] -> exists c, In c cols /\ (List.length (snd c) = title_height cols)%nat).
+Proof.
+  intros cols. split; [apply title_lines_length|]. split; [intros c; apply title_height_ge|apply title_height_attained].
+Qed.
+Print Assumptions title_block_height.
+
+(* a table program with the model's title block meets the guard of strip_layout: with the escape
+   sequences removed every rendering of it is its no_color rendering, title rows included *)
+Theorem title_block_strip_layout : forall fts w1 w2 K subs pre cols post copt1 copt2 nc pa1 pa2 mode1 mode2 ids1 ids2 w1' w2' outs1 outs2 t1 t2,
+  reach fts w1 -> reach fts w2 ->
+  Forall (Forall (item_noesc fts)) pre -> cols_noesc cols -> Forall (Forall (item_noesc fts)) post ->
+  pa1 <> PSynced -> pa2 <> PSynced ->
+  step eko fts w1 (ORender (table_obj K subs pre cols post) copt1 nc pa1 mode1 ids1) = Ok (w1', outs1) ->
+  step eko fts w2 (ORender (table_obj K subs pre cols post) copt2 true pa2 mode2 ids2) = Ok (w2', outs2) ->
+  In t1 outs1 -> In t2 outs2 -> strip t1 = t2 /\ no_esc t2.
+Proof.
+  intros fts w1 w2 K subs pre cols post copt1 copt2 nc pa1 pa2 mode1 mode2 ids1 ids2 w1' w2' outs1 outs2 t1 t2 H1 H2 Hpre Hc Hpost.
+  exact (strip_layout fts w1 w2 (table_obj K subs pre cols post) copt1 copt2 nc pa1 pa2 mode1 mode2 ids1 ids2 w1' w2' outs1 outs2 t1 t2
+           H1 H2 (table_obj_noesc fts K subs pre cols post Hpre Hc Hpost)).
+Qed.
+Print Assumptions title_block_strip_layout.
+
+(* no memory in the shared record structure: after ANY history of renderings and re-formattings of
+   the tables of a family (1) the fields are what they were when they were made, (2) a table prints
+   the block of the columns it shows now over those fields, (3) the same block as after the history
+   with every rendering left out *)
+Theorem title_block_no_memory : forall ops st tb,
+  ts_fields (fst (ts_run st ops)) = ts_fields st /\
+  snd (ts_step (fst (ts_run st ops)) (TSRender tb)) = title_lines (cols_of (ts_fields st) (vis_of (fst (ts_run st ops)) tb)) /\
+  snd (ts_step (fst (ts_run st ops)) (TSRender tb)) =
+    snd (ts_step (fst (ts_run st (filter (fun o => negb (is_render o)) ops))) (TSRender tb)).
+Proof.
+  intros ops st tb. split; [apply ts_run_fields|]. split; [apply ts_render_after|apply ts_no_memory].
+Qed.
+Print Assumptions title_block_no_memory.
+
+(* the shape of seeded change C10-m5: fields id (one title line), nm (two), amt (three); table 0 shows all,
+   table 1 only id and nm.  After table 0 was rendered (three rows) and lost its tall column, table 1 still
+   prints two rows and table 0 prints two *)
+Example title_block_example :
+  let fields := [(0, [TStr [73; 100]]); (1, [TStr [78]; TObj acc_number true [55]]); (2, [TStr [97]; TStr []; TStr [98]])] in
+  let st := mkTState fields [(0, [(0, 2%nat); (1, 3%nat); (2, 1%nat)]); (1, [(0, 2%nat); (1, 3%nat)])] in
+  let outs := snd (ts_run st [TSRender 1; TSRender 0; TSRender 1; TSRemove 0 [2]; TSRender 0]) in
+  map (@List.length _) outs = [2; 3; 2; 0; 2]%nat /\
+  nth 0 outs [] = nth 2 outs [] /\ nth 4 outs [] = nth 0 outs [] /\
+  title_fits (cols_of fields [(0, 2%nat); (1, 3%nat); (2, 1%nat)]) = true /\
+  nth 1 (nth 1 outs []) [] =
+    [sep_item; IChunk None acc_text [32; 32]; sep_item; IChunk None acc_text [32; 32]; IChunk (Some title_cls) acc_number [55]; sep_item;
+     IChunk None acc_text [32]; sep_item].
+Proof. cbv zeta. repeat split; vm_compute; reflexivity. Qed.
+Print Assumptions title_block_example.
